@@ -302,8 +302,12 @@ class Engine:
                 return False
             return o.t == other.t
         if o.cls is not None:
-            if o.cls in ("float", "complex") and pytype_name(other) in ("int", "bool", "float"):
-                raise Unsupported("abstract float compared with a number")
+            if o.cls in ("float", "complex") and pytype_name(other) in ("int", "bool"):
+                # 5.0 == 5 is True in Python: the relation between an abstract float and an int is left uninterpreted
+                self.assumed.add("equality between an abstract float and an int is an uninterpreted predicate")
+                return z3.Function("float_eq_int", Obj, I, B)(o.t, self._num(other))
+            if o.cls in ("float", "complex") and pytype_name(other) == "float":
+                raise Unsupported("abstract float compared with a concrete float")
             return False
         tn = pytype_name(other)
         if tn == "str":
